@@ -341,3 +341,25 @@ Section Reader.
     destruct buf; [unfold zlen in Hb; cbn in Hb; lia|reflexivity].
   Qed.
 End Reader.
+
+(* ------------------------------------------------------------ KeyUpdate handling never locks c.out twice *)
+Lemma handle_key_update_free r wf s :
+  out_held s = false -> exists s', handle_key_update r wf s = Some s' /\ out_held s' = false.
+Proof.
+  intro H. unfold handle_key_update, lock_out. rewrite H.
+  destruct r; [|eauto]. destruct wf; eexists; split; reflexivity.
+Qed.
+
+Lemma post_reads_free acts wf : forall s,
+  out_held s = false -> exists s', post_reads acts wf s = Some s' /\ out_held s' = false.
+Proof.
+  induction acts as [|r rest IH]; intros s H; cbn [post_reads]; [eauto|].
+  destruct (handle_key_update_free r wf s H) as (s1 & -> & H1). now apply IH.
+Qed.
+
+Theorem post_run_no_deadlock acts wf : post_run acts wf <> PDeadlock.
+Proof.
+  unfold post_run.
+  destruct (post_reads_free acts wf {| out_held := false; out_err := false |} eq_refl) as (s & -> & H).
+  unfold lock_out. rewrite H. discriminate.
+Qed.
